@@ -503,9 +503,74 @@ fn map_loop_case(cx: &mut Cx, rng: &mut Rng) {
     }
 }
 
+/// `include` renders the named template against the includer's current variables — so cutting an included template
+/// between two top-level statements and moving the tail into an include of its own changes nothing. Checked on general
+/// generated programs (loops, captures, components, filters around the include sites): every entry renders to the same
+/// text, or fails, before and after the cut.
+fn include_split_case(cx: &mut Cx, case: u64) {
+    cx.begin_case(case, "include-split");
+    let mut rng = cx.rng(case);
+    let program = {
+        let mut g = crate::progs::PGen::new(&mut rng);
+        g.program()
+    };
+    // what `__tera_context` lists inside an included template is not specified
+    if program.splits.is_empty() || program.templates.iter().any(|(_, s)| s.contains("__tera_context")) {
+        cx.count("programs_without_a_cut", 1);
+        return;
+    }
+    let Ok(Ok(orig)) = guard(|| crate::props::c18::build_engine(&program)) else {
+        cx.count("split_programs_rejected", 1);
+        return;
+    };
+    let mut cut = program.clone_templates();
+    for (name, head, tail) in &program.splits {
+        let tname = format!("tail-{name}");
+        for t in cut.iter_mut() {
+            if t.0 == *name {
+                t.1 = format!("{head}{{% include \"{tname}\" %}}");
+            }
+        }
+        cut.push((tname, tail.clone()));
+    }
+    let p2 = crate::progs::Program { templates: cut.clone(), entries: program.entries.clone(), blocks: vec![], components: program.components.clone(), splits: vec![] };
+    let split = match guard(|| crate::props::c18::build_engine(&p2)) {
+        Ok(Ok(t)) => t,
+        other => {
+            cx.violation("C03/include-split-rejected", format!("the program was accepted, the same program with included templates cut in two was not: {:?}", other.map(|r| r.map(|_| ()))), json!({"templates": program.templates, "cut": cut}));
+            return;
+        }
+    };
+    let mut ctx = crate::props::c18::context_of(&crate::progs::base_context());
+    ctx.insert("a", "A<arg>");
+    ctx.insert("n", &3);
+    for e in &program.entries {
+        let r = guard(|| (orig.render(e, &ctx).map_err(|x| x.to_string()), split.render(e, &ctx).map_err(|x| x.to_string())));
+        cx.evals(2);
+        cx.count("include_splits_compared", 1);
+        match r {
+            Ok((a, b)) => {
+                let same = match (&a, &b) {
+                    (Ok(x), Ok(y)) => x == y,
+                    (Err(_), Err(_)) => true,
+                    _ => false,
+                };
+                if !same {
+                    cx.violation("C03/include-split-changes-output", format!("{e}: whole {:?}, with the tails of the included templates moved into includes of their own {:?}", a.as_ref().map(|s| clip(s, 300)), b.as_ref().map(|s| clip(s, 300))), json!({"templates": program.templates, "cut": cut, "entry": e}));
+                }
+            }
+            Err(p) => cx.violation(&format!("C03/panic/{}", panic_site(&p)), format!("{p}"), json!({"templates": program.templates, "cut": cut})),
+        }
+    }
+}
+
 pub fn run_prop(cx: &mut Cx) {
     let total = cx.total(300_000, 6_000_000);
     for case in cx.my_cases(total) {
+        if case % 64 == 63 {
+            include_split_case(cx, case);
+            continue;
+        }
         let mut r = cx.rng(case);
         if case % 10 == 9 {
             cx.begin_case(case, "map-loop");
